@@ -5,33 +5,55 @@
 (* of (peer, class), optional position of Stop.  Run with -simulate.       *)
 (***************************************************************************)
 EXTENDS MC_PeerInput
-VARIABLES lab, klen, stopped
+VARIABLES lab, klen, stopped, role
 
-gvars == <<vars, nmsg, h, lab, klen, stopped>>
+gvars == <<vars, nmsg, h, lab, klen, stopped, role>>
 
 Labels == {"meta", "alloc", "verify", "down", "seed", "stopping"}
 
 GenInit ==
     /\ lab \in Labels /\ klen \in 1 .. MAXLEN /\ stopped = FALSE
+    \* role "source": attacker 1 first becomes a piece source (a Starter message, unchoke); afterwards its request-timeout
+    \* timer is part of the environment (fire / delivery interleaved with its messages, choke / unchoke favoured)
+    /\ role \in {"any1", "any2", "source"}
+    /\ role = "source" => lab \in {"down", "stopping", "verify"}      \* states in which a download can start (now / at replay)
     /\ \E k \in 1 .. NPE :
-          InitWith([n |-> N, npe |-> k, maxmsg |-> 65536, asis |-> FALSE], IF lab = "stopping" THEN "down" ELSE lab)
+          InitWith([n |-> N, npe |-> k, maxmsg |-> 65536, asis |-> FALSE, guard |-> TRUE], IF lab = "stopping" THEN "down" ELSE lab)
     /\ nmsg = 0 /\ h = << >>
 
 \* one random successor per step (RandomElement): -simulate then costs one state per message
 \* (the dummy dependence on the state keeps TLC from evaluating the random draws once as constants)
 Dice(k) == RandomElement(1 .. (k + 0 * nmsg))
-PickClass == IF Dice(3) = 1 THEN RandomElement({c \in Queueable \cup {"unchoke", "interested"} : nmsg >= 0})
-             ELSE RandomElement({c \in Classes : nmsg >= 0})
+PickClass == CASE Dice(6) = 1 -> RandomElement({c \in PexFam : nmsg >= 0})       \* generated ut_pex families
+               [] OTHER -> IF Dice(3) = 1 THEN RandomElement({c \in Queueable \cup {"unchoke", "interested"} : nmsg >= 0})
+                           ELSE RandomElement({c \in Core : nmsg >= 0})
+Armed == {p \in Peers : peer[p].st = "open" /\ peer[p].tm = "armed" /\ nmsg >= 0}
+Fired == {p \in Peers : peer[p].st = "open" /\ peer[p].tm = "fired" /\ nmsg >= 0}
 
 GenNext ==
     /\ nmsg < klen
-    /\ UNCHANGED <<lab, klen>>
+    /\ UNCHANGED <<lab, klen, role>>
     /\ IF lab = "stopping" /\ ~stopped /\ Dice(5) = 1
        THEN /\ stopped' = TRUE /\ UNCHANGED nmsg
             /\ Stop /\ Note([pe |-> 0, cls |-> "@stop"])
+       ELSE IF Armed # {} /\ Dice(2) = 1
+       THEN /\ UNCHANGED <<nmsg, stopped>>
+            /\ \E p \in {RandomElement(Armed)} : TimerFire(p) /\ Note([pe |-> p, cls |-> "@fire"])
+       ELSE IF Fired # {} /\ Dice(3) = 1
+       THEN /\ UNCHANGED <<nmsg, stopped>>
+            /\ \E p \in {RandomElement(Fired)} : SnubDeliver(p) /\ Note([pe |-> p, cls |-> "@snub"])
+       ELSE IF role = "source" /\ nmsg >= 2 /\ peer[1].st = "open" /\ Dice(12) = 1
+       THEN /\ UNCHANGED <<nmsg, stopped>>
+            /\ Disconnect(1) /\ Note([pe |-> 1, cls |-> "@disconnect"])
        ELSE /\ nmsg' = nmsg + 1 /\ UNCHANGED stopped
-            /\ LET p == RandomElement(Peers)  c == PickClass
-               IN Recv(p, c) /\ Note([pe |-> p, cls |-> c])
+            \* a random draw is bound by \E over a singleton: a LET definition would be evaluated (drawn) again at
+            \* every reference, and the recorded history would not be the one the model executed
+            /\ \E p \in {IF role = "source" /\ (nmsg < 2 \/ Dice(2) = 1) THEN 1 ELSE RandomElement(Peers)} :
+               \E c \in {CASE role = "source" /\ nmsg = 0 -> RandomElement({x \in Starter : nmsg >= 0})
+                           [] role = "source" /\ nmsg = 1 -> "unchoke"
+                           [] role = "source" /\ p = 1 /\ Dice(2) = 1 -> RandomElement({x \in {"choke", "unchoke"} : nmsg >= 0})
+                           [] OTHER -> PickClass} :
+                  Recv(p, c) /\ Note([pe |-> p, cls |-> c])
 
 GenSpec == GenInit /\ [][GenNext]_gvars
 
@@ -39,7 +61,7 @@ GenSpec == GenInit /\ [][GenNext]_gvars
 ASSUME PrintT("@@" \o ToJson([classes |-> [c \in Classes |-> Verdicts(c)]]))
 
 GenPrint == IF nmsg = klen
-            THEN PrintT("@@" \o ToJson([lab |-> lab, npe |-> cfg.npe, h |-> h]))
+            THEN PrintT("@@" \o ToJson([lab |-> lab, npe |-> cfg.npe, role |-> role, h |-> h]))
             ELSE TRUE
 
 =============================================================================
